@@ -31,7 +31,11 @@ type Impl struct{ K int }
 type NotImpl struct{ K int }
 type hiddenT struct{ X int }
 
+type PtrImpl struct{ K int }
+
 func (Impl) M() int     { return 1 }
+func (*PtrImpl) M() int { return 2 }
+func NewImpl() Impl     { return Impl{K: 9} }
 func (S) Meth() int     { return 3 }
 func (*S) PMeth() int   { return 4 }
 func F() int            { return 5 }
@@ -56,6 +60,7 @@ var (
 	SS             = []S{{A: 1}, {A: 2}}
 	hidden         = 11
 	Holder         = struct{ Fn func() int }{F}
+	ChImpl         = func() chan Impl { c := make(chan Impl, 64); for i := 0; i < 64; i++ { c <- Impl{K: i} }; return c }()
 )
 
 const (
@@ -174,6 +179,14 @@ func c13Atoms() map[string][]vexpr {
 	add("@I", vexpr{Expr: "3", Iface: "@I", Class: "reject", Why: "does not implement", Kind: "ifacevalue-notimpl"})
 	add("interface{}", vexpr{Expr: "3", Iface: "interface{}", Kind: "ifacevalue-empty"})
 	add("@I", vexpr{Expr: "@F()", Iface: "@I", Class: "reject", Why: "function call (and does not implement)", Kind: "ifacevalue-call"})
+	add("@I", vexpr{Expr: "nil", Iface: "@I", Class: "reject", Why: "untyped nil does not implement", Kind: "ifacevalue-untyped-nil"})
+	add("interface{}", vexpr{Expr: "nil", Iface: "interface{}", Class: "reject", Why: "untyped nil has no type to declare the variable with", Kind: "ifacevalue-untyped-nil-any"})
+	add("@I", vexpr{Expr: "@PtrImpl{K: 1}", Iface: "@I", Class: "reject", Why: "only the pointer type implements", Kind: "ifacevalue-value-of-ptr-impl"})
+	add("@I", vexpr{Expr: "&@PtrImpl{K: 1}", Iface: "@I", Kind: "ifacevalue-ptr-impl", PtrLike: true})
+	add("@I", vexpr{Expr: "(*@PtrImpl)(nil)", Iface: "@I", Kind: "ifacevalue-typed-nil"})
+	// calls and receives whose result DOES implement the interface
+	add("@I", vexpr{Expr: "@NewImpl()", Iface: "@I", Class: "reject", Why: "function call", Kind: "ifacevalue-call-implementing"})
+	add("@I", vexpr{Expr: "<-@ChImpl", Iface: "@I", Class: "reject", Why: "channel receive", Kind: "ifacevalue-recv-implementing"})
 	return a
 }
 
@@ -588,7 +601,7 @@ func judgeValueGroup(rep *Report, gid string, cases []c13Case, pr *ProgResult) {
 		if pr.GenFile != "" {
 			files[pr.P.ID+"/app/wire_gen.go"] = pr.GenFile
 		}
-		rep.Violate(fmt.Sprintf("%s_k%d", gid, c.ID), Issue{Prop: "C13", Clause: clause, Witness: witness, Sig: "C13:" + clause + ":" + c.V.Kind}, files,
+		rep.Violate(fmt.Sprintf("%s_k%d", gid, c.ID), Issue{Prop: "C13", Clause: clause, Witness: witness, Sig: c13Sig(clause, c)}, files,
 			map[string]string{"expr.txt": fmt.Sprintf("%+v\ncross=%v class=%s", c.V, c.Cross, c.Class), "wire_stderr.txt": pr.GenStderr})
 	}
 	sigOf := func(c c13Case) string {
@@ -719,4 +732,12 @@ func judgeValueGroup(rep *Report, gid string, cases []c13Case, pr *ProgResult) {
 			rep.Held(sigOf(c))
 		}
 	}
+}
+
+// c13Sig: the signature by which a violation is matched against known findings.
+func c13Sig(clause string, c c13Case) string {
+	if strings.HasPrefix(clause, "expression that must be refused") {
+		return fmt.Sprintf("C13:must-refuse-accepted:%s:cross=%v", c.V.Kind, c.Cross)
+	}
+	return "C13:" + clause + ":" + c.V.Kind
 }
